@@ -136,7 +136,12 @@ func check(cfg *Config, prop string, writeEvidence bool) int {
 	sem := make(chan struct{}, cfg.Jobs)
 	var ldMu sync.Mutex
 	_ = ldMu
+	perH := cfg.Jobs / len(hs)
+	if perH < 1 {
+		perH = 1
+	}
 	for i, h := range hs {
+		h.Workers = perH
 		wg.Add(1)
 		sem <- struct{}{}
 		go func(i int, h *Harness) {
